@@ -736,3 +736,184 @@ Proof.
       * apply nn_upd_other. exact (nn_not_in1 Ha).
       * eapply hp_pres_weaken; [|exact P2]. intros ? [].
 Qed.
+
+(* ------------------------------------------------------------------ histories *)
+Ltac splits := repeat (match goal with |- _ /\ _ => split end).
+Lemma nn_run_ok h : forall st ln ld,
+  nn_inv st -> nn_agree ln ld st -> nn_ws ln ld h = true ->
+  exists st' obs ln' ld', nn_run st h = HpOk (st', obs) /\ nn_inv st' /\ nn_agree ln' ld' st' /\
+                          length obs = length h.
+Proof.
+  induction h as [|[t op] r IH]; intros st ln ld I A W.
+  - exists st, [], ln, ld. splits; auto.
+  - cbn [nn_ws] in W. destruct (nn_ws_step ln ld t op) as [[ln2 ld2]|] eqn:S; [|discriminate].
+    destruct (nn_step_ok st ln ld t op ln2 ld2 I A S) as (st2 & o & E & A2 & I2 & _).
+    destruct (IH st2 ln2 ld2 I2 A2 W) as (st3 & obs & ln3 & ld3 & E3 & I3 & A3 & Len).
+    exists st3, (o :: obs), ln3, ld3. cbn [nn_run]. rewrite E. cbn [fst snd]. rewrite E3. cbn [fst snd length].
+    splits; auto.
+Qed.
+
+Lemma nn_inv_init threads : nn_inv (nn_init threads).
+Proof.
+  constructor; cbn [nn_init nn_heap nn_names].
+  - exact hp_wf_empty.
+  - intro l. unfold nn_refs, hp_strong_of. cbn [nn_init nn_heap nn_names nn_nodes nn_probes hp_empty hp_cells hp_find nn_wsum].
+    rewrite !nn_wsum_zero; [reflexivity| |].
+    + intros x Hx. apply repeat_spec in Hx. subst x. reflexivity.
+    + intros x Hx. apply repeat_spec in Hx. subst x. reflexivity.
+  - apply Forall_forall. intros x Hx. apply repeat_spec in Hx. subst x. exact Logic.I.
+Qed.
+
+Lemma nn_agree_init threads :
+  nn_agree (repeat false (nn_NAMES * threads)) (repeat false (nn_NODES * threads)) (nn_init threads).
+Proof.
+  split; cbn [nn_init nn_names nn_nodes].
+  - generalize (nn_NAMES * threads)%nat. intro k. induction k; cbn; congruence.
+  - generalize (nn_NODES * threads)%nat. intro k. induction k; cbn; congruence.
+Qed.
+
+(* No well-scoped history panics, and afterwards the strong count of every location is the number of live
+   handles to it — for any number of threads and any interleaving (the history is a list of (thread, op)). *)
+Theorem nn_safe : forall (threads : nat) (h : list (nat * nn_op)),
+  nn_well_scoped threads h = true ->
+  exists st obs, nn_run (nn_init threads) h = HpOk (st, obs) /\ length obs = length h /\
+    forall l, hp_strong_of (nn_heap st) l = nn_refs st l.
+Proof.
+  intros threads h W.
+  destruct (nn_run_ok h _ _ _ (nn_inv_init threads) (nn_agree_init threads) W) as (st & obs & ? & ? & E & I & _ & Len).
+  exists st, obs. split; [exact E|]. split; [exact Len|]. exact (ni_bal st I).
+Qed.
+
+(* ------------------------------------------------------------------ no leak *)
+Definition nn_refs_nn (st : nn_state) (l : N) : N :=
+  nn_wsum (nn_wname l) (nn_names st) + nn_wsum (nn_wnode l) (nn_nodes st).
+
+Lemma nn_drop_names_ok : forall l i st,
+  nn_inv st -> (forall k, nth_error l k = nth_error (nn_names st) (i + k)) ->
+  exists st', nn_drop_names st i l = HpOk st' /\ nn_inv st' /\ nn_nodes st' = nn_nodes st /\ nn_probes st' = nn_probes st /\
+    length (nn_names st') = length (nn_names st) /\
+    (forall k, (k < i)%nat -> nth_error (nn_names st') k = nth_error (nn_names st) k) /\
+    (forall k s, (i <= k)%nat -> nth_error (nn_names st') k = Some s -> nn_is_live s = false).
+Proof.
+  induction l as [|s r IH]; intros i st I H.
+  - exists st. cbn [nn_drop_names]. splits; auto.
+    intros k s Hk E. specialize (H (k - i)%nat). replace (i + (k - i))%nat with k in H by lia.
+    rewrite E in H. destruct (k - i)%nat; discriminate H.
+  - assert (Hr : forall st2, nn_names st2 = nn_names st \/ (exists x, nn_names st2 = nn_upd i x (nn_names st)) ->
+                 forall k, nth_error r k = nth_error (nn_names st2) (S i + k)).
+    { intros st2 [Q|[x Q]] k; rewrite Q; [|rewrite nn_upd_other by lia];
+        specialize (H (S k)); cbn [nth_error] in H; rewrite H; f_equal; lia. }
+    pose proof (H 0%nat) as H0. cbn [nth_error] in H0. rewrite Nat.add_0_r in H0. symmetry in H0.
+    destruct s as [|n|n]; cbn [nn_drop_names].
+    + destruct (IH (S i) st I (Hr st (or_introl eq_refl))) as (st' & E & I' & Dn & Dp & Ln & Lo & Hi).
+      exists st'. split; [exact E|]. split; [exact I'|]. split; [exact Dn|]. split; [exact Dp|]. split; [exact Ln|].
+      split; [intros k Hk; apply Lo; lia|].
+      intros k s Hk Ek. destruct (Nat.eq_dec k i) as [->|Hne]; [|apply (Hi k); [lia|exact Ek]].
+        rewrite Lo in Ek by lia. rewrite H0 in Ek. injection Ek as <-. reflexivity.
+    + destruct (nn_drop_name_ok st i n I H0) as (st2 & C & N2 & D2 & P2 & I2 & _). rewrite C.
+      assert (Hr2 : forall k, nth_error r k = nth_error (nn_names (nn_set_name st2 i (NnStale n))) (S i + k)).
+      { apply Hr. right. exists (NnStale n). cbn [nn_set_name nn_names]. rewrite N2. reflexivity. }
+      destruct (IH (S i) _ I2 Hr2) as (st' & E & I' & Dn & Dp & Ln & Lo & Hi).
+      exists st'. split; [exact E|]. cbn [nn_set_name nn_names nn_nodes nn_probes] in *.
+      split; [exact I'|]. split; [congruence|]. split; [congruence|].
+      split; [rewrite Ln, nn_upd_length, N2; reflexivity|]. split.
+      * intros k Hk. rewrite Lo by lia. rewrite N2. apply nn_upd_other. lia.
+      * intros k s Hk Ek. destruct (Nat.eq_dec k i) as [->|Hne]; [|apply (Hi k); [lia|exact Ek]].
+        rewrite Lo in Ek by lia. rewrite N2, nn_upd_same in Ek by exact (nn_nth_lt _ _ _ H0).
+        injection Ek as <-. reflexivity.
+    + destruct (IH (S i) st I (Hr st (or_introl eq_refl))) as (st' & E & I' & Dn & Dp & Ln & Lo & Hi).
+      exists st'. split; [exact E|]. split; [exact I'|]. split; [exact Dn|]. split; [exact Dp|]. split; [exact Ln|].
+      split; [intros k Hk; apply Lo; lia|].
+      intros k s Hk Ek. destruct (Nat.eq_dec k i) as [->|Hne]; [|apply (Hi k); [lia|exact Ek]].
+        rewrite Lo in Ek by lia. rewrite H0 in Ek. injection Ek as <-. reflexivity.
+Qed.
+
+Lemma nn_drop_nodes_ok : forall l i st,
+  nn_inv st -> (forall k, nth_error l k = nth_error (nn_nodes st) (i + k)) ->
+  exists st', nn_drop_nodes st i l = HpOk st' /\ nn_inv st' /\ nn_names st' = nn_names st /\ nn_probes st' = nn_probes st /\
+    length (nn_nodes st') = length (nn_nodes st) /\
+    (forall k, (k < i)%nat -> nth_error (nn_nodes st') k = nth_error (nn_nodes st) k) /\
+    (forall k s, (i <= k)%nat -> nth_error (nn_nodes st') k = Some s -> nn_is_live s = false).
+Proof.
+  induction l as [|s r IH]; intros i st I H.
+  - exists st. cbn [nn_drop_nodes]. splits; auto.
+    intros k s Hk E. specialize (H (k - i)%nat). replace (i + (k - i))%nat with k in H by lia.
+    rewrite E in H. destruct (k - i)%nat; discriminate H.
+  - assert (Hr : forall st2, nn_nodes st2 = nn_nodes st \/ (exists x, nn_nodes st2 = nn_upd i x (nn_nodes st)) ->
+                 forall k, nth_error r k = nth_error (nn_nodes st2) (S i + k)).
+    { intros st2 [Q|[x Q]] k; rewrite Q; [|rewrite nn_upd_other by lia];
+        specialize (H (S k)); cbn [nth_error] in H; rewrite H; f_equal; lia. }
+    pose proof (H 0%nat) as H0. cbn [nth_error] in H0. rewrite Nat.add_0_r in H0. symmetry in H0.
+    destruct s as [|x|x]; cbn [nn_drop_nodes].
+    + destruct (IH (S i) st I (Hr st (or_introl eq_refl))) as (st' & E & I' & Dn & Dp & Ln & Lo & Hi).
+      exists st'. split; [exact E|]. split; [exact I'|]. split; [exact Dn|]. split; [exact Dp|]. split; [exact Ln|].
+      split; [intros k Hk; apply Lo; lia|].
+      intros k s Hk Ek. destruct (Nat.eq_dec k i) as [->|Hne]; [|apply (Hi k); [lia|exact Ek]].
+        rewrite Lo in Ek by lia. rewrite H0 in Ek. injection Ek as <-. reflexivity.
+    + destruct (nn_drop_node_ok st i x I H0) as (h2 & C & I2 & _). rewrite C.
+      assert (Hr2 : forall k, nth_error r k = nth_error (nn_nodes (nn_set_node (nn_set_heap st h2) i (NnStale x))) (S i + k)).
+      { apply Hr. right. exists (NnStale x). reflexivity. }
+      destruct (IH (S i) _ I2 Hr2) as (st' & E & I' & Dn & Dp & Ln & Lo & Hi).
+      exists st'. split; [exact E|]. cbn [nn_set_node nn_set_heap nn_names nn_nodes nn_probes] in *.
+      split; [exact I'|]. split; [congruence|]. split; [congruence|].
+      split; [rewrite Ln, nn_upd_length; reflexivity|]. split.
+      * intros k Hk. rewrite Lo by lia. apply nn_upd_other. lia.
+      * intros k s Hk Ek. destruct (Nat.eq_dec k i) as [->|Hne]; [|apply (Hi k); [lia|exact Ek]].
+        rewrite Lo in Ek by lia. rewrite nn_upd_same in Ek by exact (nn_nth_lt _ _ _ H0).
+        injection Ek as <-. reflexivity.
+    + destruct (IH (S i) st I (Hr st (or_introl eq_refl))) as (st' & E & I' & Dn & Dp & Ln & Lo & Hi).
+      exists st'. split; [exact E|]. split; [exact I'|]. split; [exact Dn|]. split; [exact Dp|]. split; [exact Ln|].
+      split; [intros k Hk; apply Lo; lia|].
+      intros k s Hk Ek. destruct (Nat.eq_dec k i) as [->|Hne]; [|apply (Hi k); [lia|exact Ek]].
+        rewrite Lo in Ek by lia. rewrite H0 in Ek. injection Ek as <-. reflexivity.
+Qed.
+
+Lemma nn_drop_probes_ok : forall l st,
+  hp_wf (nn_heap st) ->
+  (forall x, hp_strong_of (nn_heap st) x = nn_refs_nn st x + nn_wsum (nn_wprobe x) l) ->
+  exists st', nn_drop_probes st l = HpOk st' /\ hp_wf (nn_heap st') /\ nn_names st' = nn_names st /\
+    nn_nodes st' = nn_nodes st /\ nn_probes st' = [] /\
+    (forall x, hp_strong_of (nn_heap st') x = nn_refs_nn st x).
+Proof.
+  induction l as [|p r IH]; intros st W B.
+  - eexists. cbn [nn_drop_probes]. split; [reflexivity|]. cbn [nn_heap nn_names nn_nodes nn_probes].
+    splits; auto. intro x. rewrite B. cbn [nn_wsum]. unfold nn_refs_nn. lia.
+  - cbn [nn_drop_probes].
+    assert (S : 1 <= hp_strong_of (nn_heap st) p).
+    { rewrite B. cbn [nn_wsum]. unfold nn_wprobe at 1, hp_ind. rewrite N.eqb_refl. lia. }
+    destruct (hp_decr_ok _ p W S) as (h2 & E2 & W2 & Hs & _). rewrite E2.
+    destruct (IH (nn_set_heap st h2) W2) as (st' & E & W' & N' & D' & P' & B').
+    { intro x. cbn [nn_set_heap nn_heap]. specialize (Hs x). specialize (B x). cbn [nn_wsum] in B.
+      unfold nn_refs_nn in *. cbn [nn_set_heap nn_names nn_nodes]. unfold nn_wprobe at 1 in B. unfold hp_ind in *.
+      destruct (N.eqb_spec x p); destruct (N.eqb_spec p x); subst; try congruence; lia. }
+    exists st'. split; [exact E|]. splits; auto.
+Qed.
+
+(* After dropping every live variable and every probe, nothing is allocated. *)
+Theorem nn_no_leak_inv st : nn_inv st ->
+  exists st', nn_drop_all st = HpOk st' /\ hp_cells (nn_heap st') = [] /\ hp_live_count (nn_heap st') = 0.
+Proof.
+  intro I. unfold nn_drop_all.
+  destruct (nn_drop_names_ok (nn_names st) 0 st I (fun k => eq_refl)) as (s1 & E1 & I1 & D1 & P1 & _ & _ & H1). rewrite E1.
+  destruct (nn_drop_nodes_ok (nn_nodes s1) 0 s1 I1 (fun k => eq_refl)) as (s2 & E2 & I2 & N2 & P2 & _ & _ & H2). rewrite E2.
+  assert (Z : forall x, nn_refs_nn s2 x = 0).
+  { intro x. unfold nn_refs_nn. rewrite !nn_wsum_zero; [reflexivity| |].
+    - intros s Hs. apply In_nth_error in Hs as [k Hk]. apply nn_dead_wnode. exact (H2 k s (Nat.le_0_l k) Hk).
+    - intros s Hs. rewrite N2 in Hs. apply In_nth_error in Hs as [k Hk]. apply nn_dead_wname. exact (H1 k s (Nat.le_0_l k) Hk). }
+  destruct (nn_drop_probes_ok (nn_probes s2) s2 (ni_wf s2 I2)) as (s3 & E3 & W3 & _ & _ & _ & B3).
+  { intro x. rewrite (ni_bal s2 I2). unfold nn_refs, nn_refs_nn. lia. }
+  exists s3. split; [exact E3|].
+  assert (C : hp_cells (nn_heap s3) = []).
+  { apply hp_empty_iff; [|exact W3]. intro x. rewrite B3. apply Z. }
+  split; [exact C|]. unfold hp_live_count. rewrite C. reflexivity.
+Qed.
+
+Theorem nn_no_leak : forall (threads : nat) (h : list (nat * nn_op)),
+  nn_well_scoped threads h = true ->
+  exists st obs st', nn_run (nn_init threads) h = HpOk (st, obs) /\ nn_drop_all st = HpOk st' /\
+                     hp_live_count (nn_heap st') = 0.
+Proof.
+  intros threads h W.
+  destruct (nn_run_ok h _ _ _ (nn_inv_init threads) (nn_agree_init threads) W) as (st & obs & ? & ? & E & I & _).
+  destruct (nn_no_leak_inv st I) as (st' & D & _ & L). exists st, obs, st'. auto.
+Qed.
